@@ -27,7 +27,7 @@ def replace (f : Forest) (replaced replacing : Nat) : Forest × Res :=
     if !f.structureCheck (some parent) replacing then (f, .err .invalidOperation) else
     if (f.ancestors replacing).contains replaced then (f, .err .invalidOperation) else
     let previous := f.prevSibling replaced
-    if previous == some replacing then f.remove replaced else
+    if previous == some replacing || f.nextSibling replaced == some replacing then f.remove replaced else
     let f1 := f.dropSubtree replaced
     match previous with
     | some p => f1.insertAfter p replacing
